@@ -1,6 +1,6 @@
 (* DepthCostProofs.v — theorems about DepthCost.v (C07):
    1. sig_copy is sig_read with a meter (same outcome on every input);
-      copied <= nest * (bytes consumed) on every input, every outcome (sig_copy_bound);
+      copied <= nesting * (bytes consumed) on every input, every outcome (sig_copy_bound);
       no linear bound: n nested dynamic values, 5 (n + 1) bytes, copy 5 (n + 1) (n + 2) / 2 bytes
       (nested_m_copy, sig_copy_not_linear);
    2. the signature parser needs at most (number of opening brackets + 1) nested entries of the type
@@ -101,7 +101,7 @@ Proof.
     rewrite <- (IH t' r). destruct (sig_copy parse c f t' r) as [m [[d r']|l| |]]; reflexivity.
 Qed.
 
-(* ================= 1b. the upper bound: copied <= nest * consumed ================= *)
+(* ================= 1b. the upper bound: copied <= nesting * consumed ================= *)
 (* what a reader has taken from its source: on success and on error the source says what it still
    holds; for the two outcomes the totality theorems exclude, everything *)
 Definition used {A} (bs : bytes) (r : Wire.res (A * bytes)) : N :=
@@ -112,23 +112,23 @@ Definition used {A} (bs : bytes) (r : Wire.res (A * bytes)) : N :=
   end.
 
 (* a metered reader on input bs: the result is no longer than what was consumed, and every byte
-   consumed was copied at most [nest] times *)
+   consumed was copied at most [nesting] times *)
 Definition mok (bs : bytes) (x : mres bytes) : Prop :=
   match snd x with
-  | ROk (d, rest) => blen d + blen rest <= blen bs /\ copied (fst x) <= nest (fst x) * (blen bs - blen rest)
-  | RErr l => blen l <= blen bs /\ copied (fst x) <= nest (fst x) * (blen bs - blen l)
-  | _ => copied (fst x) <= nest (fst x) * blen bs
+  | ROk (d, rest) => blen d + blen rest <= blen bs /\ copied (fst x) <= nesting (fst x) * (blen bs - blen rest)
+  | RErr l => blen l <= blen bs /\ copied (fst x) <= nesting (fst x) * (blen bs - blen l)
+  | _ => copied (fst x) <= nesting (fst x) * blen bs
   end.
 (* a sequence of readers at one level, their results already written into the enclosing buffer *)
 Definition clen (ds : list bytes) : N := blen (List.concat ds).
 Definition lok (bs : bytes) (x : mres (list bytes)) : Prop :=
   match snd x with
-  | ROk (ds, rest) => clen ds + blen rest <= blen bs /\ copied (fst x) <= (nest (fst x) + 1) * (blen bs - blen rest)
-  | RErr l => blen l <= blen bs /\ copied (fst x) <= (nest (fst x) + 1) * (blen bs - blen l)
-  | _ => copied (fst x) <= (nest (fst x) + 1) * blen bs
+  | ROk (ds, rest) => clen ds + blen rest <= blen bs /\ copied (fst x) <= (nesting (fst x) + 1) * (blen bs - blen rest)
+  | RErr l => blen l <= blen bs /\ copied (fst x) <= (nesting (fst x) + 1) * (blen bs - blen l)
+  | _ => copied (fst x) <= (nesting (fst x) + 1) * blen bs
   end.
 
-Lemma mok_used : forall bs x, mok bs x -> copied (fst x) <= nest (fst x) * used bs (snd x).
+Lemma mok_used : forall bs x, mok bs x -> copied (fst x) <= nesting (fst x) * used bs (snd x).
 Proof. intros bs [m [[d rest]|l| |]] H; cbn [mok used fst snd] in *; tauto. Qed.
 
 Lemma blen_app : forall a b, blen (a ++ b) = blen a + blen b.
@@ -161,7 +161,7 @@ Lemma mleaf_ok : forall bs r,
   match r with ROk (d, rest) => blen d + blen rest <= blen bs | RErr l => blen l <= blen bs | _ => True end ->
   mok bs (mleaf r).
 Proof.
-  intros bs [[d rest]|l| |] H; unfold mok; cbn [mleaf fst snd copied nest]; try lia.
+  intros bs [[d rest]|l| |] H; unfold mok; cbn [mleaf fst snd copied nesting]; try lia.
 Qed.
 
 Lemma take_n_lens : forall n bs,
@@ -223,12 +223,12 @@ Section LoopsOk.
   Lemma mrep_nat_ok : forall k bs, lok bs (mrep_nat p k bs).
   Proof.
     induction k as [|k IH]; intro bs; cbn [mrep_nat].
-    - unfold lok. cbn [fst snd mzero copied nest]. rewrite clen_nil. lia.
+    - unfold lok. cbn [fst snd mzero copied nesting]. rewrite clen_nil. lia.
     - pose proof (Hp bs) as Hx. destruct (p bs) as [m [[x rest]|l| |]]; unfold mok in Hx; cbn [fst snd] in Hx.
       + destruct Hx as [Hlen Hc]. pose proof (IH rest) as Hr.
         destruct (mrep_nat p k rest) as [m' r']. unfold lok in Hr |- *. cbn [fst snd] in Hr |- *.
-        assert (Hs : copied m + blen x <= (nest m + 1) * (blen bs - blen rest)) by (apply step_le; [exact Hc|lia]).
-        destruct r' as [[xs rest']|l| |]; cbn [madd charge copied nest].
+        assert (Hs : copied m + blen x <= (nesting m + 1) * (blen bs - blen rest)) by (apply step_le; [exact Hc|lia]).
+        destruct r' as [[xs rest']|l| |]; cbn [madd charge copied nesting].
         * destruct Hr as [Hlen' Hc']. rewrite clen_cons. split; [lia|].
           apply (join_le _ _ _ _ _ _ _ Hs Hc'). lia.
         * destruct Hr as [Hlen' Hc']. split; [lia|]. apply (join_le _ _ _ _ _ _ _ Hs Hc'). lia.
@@ -240,7 +240,7 @@ Section LoopsOk.
   Qed.
 
   Lemma mrep_slow_ok : forall bs0 fuel n bs acc ma,
-    clen (rev acc) + blen bs <= blen bs0 -> copied ma <= (nest ma + 1) * (blen bs0 - blen bs) ->
+    clen (rev acc) + blen bs <= blen bs0 -> copied ma <= (nesting ma + 1) * (blen bs0 - blen bs) ->
     lok bs0 (mrep_slow p fuel n bs acc ma).
   Proof.
     intros bs0 fuel. induction fuel as [|f IH]; intros n bs acc ma Hacc Hma; cbn [mrep_slow].
@@ -249,33 +249,33 @@ Section LoopsOk.
     - destruct (n =? 0); [unfold lok; cbn [fst snd]; split; [exact Hacc|exact Hma]|].
       pose proof (Hp bs) as Hx. destruct (p bs) as [m [[d bs']|l| |]]; unfold mok in Hx; cbn [fst snd] in Hx.
       + destruct Hx as [Hlen Hc].
-        assert (Hs : copied m + blen d <= (nest m + 1) * (blen bs - blen bs')) by (apply step_le; [exact Hc|lia]).
+        assert (Hs : copied m + blen d <= (nesting m + 1) * (blen bs - blen bs')) by (apply step_le; [exact Hc|lia]).
         destruct (Nat.ltb (List.length bs') (List.length bs)) eqn:Hlt.
         * apply IH.
           -- cbn [rev]. rewrite clen_app, clen_cons, clen_nil. lia.
-          -- cbn [madd charge copied nest]. apply (join_le _ _ _ _ _ _ _ Hma Hs). lia.
+          -- cbn [madd charge copied nesting]. apply (join_le _ _ _ _ _ _ _ Hma Hs). lia.
         * apply Nat.ltb_ge in Hlt.
           assert (Hb : blen bs' = blen bs) by (unfold blen in *; lia).
           assert (Hd : d = []) by (apply blen_0; lia). subst d.
           assert (Hm0 : copied m = 0).
           { rewrite Hb, N.sub_diag, N.mul_0_r in Hc. lia. }
-          unfold lok. cbn [fst snd copied nest]. rewrite clen_app, clen_repeat_nil, Hm0, blen_nil, Hb.
+          unfold lok. cbn [fst snd copied nesting]. rewrite clen_app, clen_repeat_nil, Hm0, blen_nil, Hb.
           split; [lia|]. rewrite N.mul_0_r, N.add_0_r. apply (mul_le_l _ _ _ _ Hma). lia.
-      + destruct Hx as [Hlen Hc]. unfold lok. cbn [fst snd madd copied nest]. split; [lia|].
-        assert (Hm1 : copied m <= (nest m + 1) * (blen bs - blen l)) by (apply (mul_le_l _ _ _ _ Hc); lia).
+      + destruct Hx as [Hlen Hc]. unfold lok. cbn [fst snd madd copied nesting]. split; [lia|].
+        assert (Hm1 : copied m <= (nesting m + 1) * (blen bs - blen l)) by (apply (mul_le_l _ _ _ _ Hc); lia).
         apply (join_le _ _ _ _ _ _ _ Hma Hm1). lia.
-      + unfold lok. cbn [fst snd madd copied nest].
-        assert (Hm1 : copied m <= (nest m + 1) * blen bs) by (apply (mul_le_l _ _ _ _ Hx); lia).
+      + unfold lok. cbn [fst snd madd copied nesting].
+        assert (Hm1 : copied m <= (nesting m + 1) * blen bs) by (apply (mul_le_l _ _ _ _ Hx); lia).
         apply (join_le _ _ _ _ _ _ _ Hma Hm1). lia.
-      + unfold lok. cbn [fst snd madd copied nest].
-        assert (Hm1 : copied m <= (nest m + 1) * blen bs) by (apply (mul_le_l _ _ _ _ Hx); lia).
+      + unfold lok. cbn [fst snd madd copied nesting].
+        assert (Hm1 : copied m <= (nesting m + 1) * blen bs) by (apply (mul_le_l _ _ _ _ Hx); lia).
         apply (join_le _ _ _ _ _ _ _ Hma Hm1). lia.
   Qed.
 
   Lemma mrep_ok : forall n bs, lok bs (mrep p n bs).
   Proof.
     intros n bs. unfold mrep. destruct (N.of_nat (List.length bs) <? n).
-    - apply mrep_slow_ok; cbn [rev mzero copied nest]; rewrite ?clen_nil; lia.
+    - apply mrep_slow_ok; cbn [rev mzero copied nesting]; rewrite ?clen_nil; lia.
     - apply mrep_nat_ok.
   Qed.
 End LoopsOk.
@@ -284,12 +284,12 @@ Lemma mseq_with_ok : forall ps, Forall (fun p : bytes -> mres bytes => forall bs
   forall bs, lok bs (mseq_with ps bs).
 Proof.
   intros ps HF. induction HF as [|p ps' Hp HF' IH]; intro bs; cbn [mseq_with].
-  - unfold lok. cbn [fst snd mzero copied nest]. rewrite clen_nil. lia.
+  - unfold lok. cbn [fst snd mzero copied nesting]. rewrite clen_nil. lia.
   - pose proof (Hp bs) as Hx. destruct (p bs) as [m [[x rest]|l| |]]; unfold mok in Hx; cbn [fst snd] in Hx.
     + destruct Hx as [Hlen Hc]. pose proof (IH rest) as Hr.
       destruct (mseq_with ps' rest) as [m' r']. unfold lok in Hr |- *. cbn [fst snd] in Hr |- *.
-      assert (Hs : copied m + blen x <= (nest m + 1) * (blen bs - blen rest)) by (apply step_le; [exact Hc|lia]).
-      destruct r' as [[xs rest']|l| |]; cbn [madd charge copied nest].
+      assert (Hs : copied m + blen x <= (nesting m + 1) * (blen bs - blen rest)) by (apply step_le; [exact Hc|lia]).
+      destruct r' as [[xs rest']|l| |]; cbn [madd charge copied nesting].
       * destruct Hr as [Hlen' Hc']. rewrite clen_cons. split; [lia|].
         apply (join_le _ _ _ _ _ _ _ Hs Hc'). lia.
       * destruct Hr as [Hlen' Hc']. split; [lia|]. apply (join_le _ _ _ _ _ _ _ Hs Hc'). lia.
@@ -303,7 +303,7 @@ Qed.
 (* the reader that wrote the members' results into its buffer returns that buffer *)
 Lemma mcat_ok : forall bs x, lok bs x -> mok bs (mcat x).
 Proof.
-  intros bs [m [[ds rest]|l| |]] H; unfold lok in H; unfold mok, mcat; cbn [fst snd cat_res bind deeper copied nest] in *;
+  intros bs [m [[ds rest]|l| |]] H; unfold lok in H; unfold mok, mcat; cbn [fst snd cat_res bind deeper copied nesting] in *;
     exact H.
 Qed.
 
@@ -313,23 +313,23 @@ Proof.
   intros pk pv Hk Hv b. unfold mentry.
   pose proof (Hk b) as Hx. destruct (pk b) as [mk [[k r1]|l| |]]; unfold mok in Hx; cbn [fst snd] in Hx.
   - destruct Hx as [Hlen Hc].
-    assert (Hs : copied mk + blen k <= (nest mk + 1) * (blen b - blen r1)) by (apply step_le; [exact Hc|lia]).
+    assert (Hs : copied mk + blen k <= (nesting mk + 1) * (blen b - blen r1)) by (apply step_le; [exact Hc|lia]).
     pose proof (Hv r1) as Hy. destruct (pv r1) as [mv [[v r2]|l| |]]; unfold mok in Hy |- *; cbn [fst snd] in Hy |- *;
-      cbn [deeper madd charge copied nest].
+      cbn [deeper madd charge copied nesting].
     + destruct Hy as [Hlen' Hc']. rewrite blen_app. split; [lia|].
-      assert (Hs' : copied mv + blen v <= (nest mv + 1) * (blen r1 - blen r2)) by (apply step_le; [exact Hc'|lia]).
+      assert (Hs' : copied mv + blen v <= (nesting mv + 1) * (blen r1 - blen r2)) by (apply step_le; [exact Hc'|lia]).
       apply (join_le _ _ _ _ _ _ _ Hs Hs'). lia.
     + destruct Hy as [Hlen' Hc']. split; [lia|].
-      assert (Hs' : copied mv <= (nest mv + 1) * (blen r1 - blen l)) by (apply (mul_le_l _ _ _ _ Hc'); lia).
+      assert (Hs' : copied mv <= (nesting mv + 1) * (blen r1 - blen l)) by (apply (mul_le_l _ _ _ _ Hc'); lia).
       apply (join_le _ _ _ _ _ _ _ Hs Hs'). lia.
-    + assert (Hs' : copied mv <= (nest mv + 1) * blen r1) by (apply (mul_le_l _ _ _ _ Hy); lia).
+    + assert (Hs' : copied mv <= (nesting mv + 1) * blen r1) by (apply (mul_le_l _ _ _ _ Hy); lia).
       apply (join_le _ _ _ _ _ _ _ Hs Hs'). lia.
-    + assert (Hs' : copied mv <= (nest mv + 1) * blen r1) by (apply (mul_le_l _ _ _ _ Hy); lia).
+    + assert (Hs' : copied mv <= (nesting mv + 1) * blen r1) by (apply (mul_le_l _ _ _ _ Hy); lia).
       apply (join_le _ _ _ _ _ _ _ Hs Hs'). lia.
-  - unfold mok. cbn [fst snd deeper copied nest]. destruct Hx as [Hlen Hc]. split; [exact Hlen|].
+  - unfold mok. cbn [fst snd deeper copied nesting]. destruct Hx as [Hlen Hc]. split; [exact Hlen|].
     apply (mul_le_l _ _ _ _ Hc). lia.
-  - unfold mok. cbn [fst snd deeper copied nest]. apply (mul_le_l _ _ _ _ Hx). lia.
-  - unfold mok. cbn [fst snd deeper copied nest]. apply (mul_le_l _ _ _ _ Hx). lia.
+  - unfold mok. cbn [fst snd deeper copied nesting]. apply (mul_le_l _ _ _ _ Hx). lia.
+  - unfold mok. cbn [fst snd deeper copied nesting]. apply (mul_le_l _ _ _ _ Hx). lia.
 Qed.
 
 (* the 4 bytes of the count, written once at this level *)
@@ -346,15 +346,15 @@ Proof.
   intros p Hp bs. unfold mvar. destruct (read_num 4 bs) as [[n r]|l| |] eqn:E.
   - apply read_num_lens in E. pose proof (mrep_ok p Hp n r) as Hr.
     destruct (mrep p n r) as [m x]. unfold lok in Hr. unfold mok. cbn [fst snd] in Hr |- *.
-    destruct x as [[ds rest]|l| |]; cbn [cat_res bind deeper charge copied nest].
+    destruct x as [[ds rest]|l| |]; cbn [cat_res bind deeper charge copied nesting].
     + destruct Hr as [Hlen Hc]. rewrite blen_app, enc_u32_blen. fold (clen ds). split; [lia|].
       apply (var_le _ _ _ _ Hc). lia.
     + destruct Hr as [Hlen Hc]. split; [lia|]. apply (var_le _ _ _ _ Hc). lia.
     + apply (var_le _ _ _ _ Hr). lia.
     + apply (var_le _ _ _ _ Hr). lia.
-  - apply read_num_err in E. subst l. unfold mok. cbn [fst snd copied nest]. rewrite blen_nil. lia.
-  - unfold mok. cbn [fst snd copied nest]. lia.
-  - unfold mok. cbn [fst snd copied nest]. lia.
+  - apply read_num_err in E. subst l. unfold mok. cbn [fst snd copied nesting]. rewrite blen_nil. lia.
+  - unfold mok. cbn [fst snd copied nesting]. lia.
+  - unfold mok. cbn [fst snd copied nesting]. lia.
 Qed.
 
 Section BodyOk.
@@ -400,7 +400,7 @@ End BodyOk.
 Lemma mfail_ok : forall bs (r : Wire.res (bytes * bytes)),
   match r with ROk _ => False | RErr l => blen l <= blen bs | _ => True end -> mok bs (mfail r).
 Proof.
-  intros bs [[d rest]|l| |] H; unfold mok, mfail; cbn [fst snd copied nest]; lia.
+  intros bs [[d rest]|l| |] H; unfold mok, mfail; cbn [fst snd copied nesting]; lia.
 Qed.
 
 Section SigCopyOk.
@@ -421,13 +421,13 @@ Section SigCopyOk.
     destruct (read_str bs) as [[sg r]|l| |]; try (exfalso; exact Hs); [|apply mfail_ok; exact Hs].
     destruct (parse (string_of_bytes sg)) as [t'|]; [|apply mfail_ok; lia].
     pose proof (Hin t' r) as Hr. destruct (inner t' r) as [m [[d r']|l| |]]; unfold mok in Hr |- *;
-      cbn [fst snd deeper charge copied nest] in Hr |- *.
+      cbn [fst snd deeper charge copied nesting] in Hr |- *.
     - destruct Hr as [Hlen Hc].
       assert (Ho : blen ((if value_reader_no_len c then sg else enc_str sg) ++ d) <= 4 + blen sg + blen d).
       { rewrite blen_app. destruct (value_reader_no_len c); [|rewrite enc_str_blen]; lia. }
       split; [lia|]. apply (mul_le_r _ _ ((blen r - blen r') + (4 + blen sg))); [|lia].
       rewrite N.mul_add_distr_l, N.mul_add_distr_r.
-      assert (Hc' : copied m <= nest m * (blen r - blen r')) by exact Hc.
+      assert (Hc' : copied m <= nesting m * (blen r - blen r')) by exact Hc.
       assert (Ho' : blen ((if value_reader_no_len c then sg else enc_str sg) ++ d) <= (blen r - blen r') + (4 + blen sg)) by lia.
       nia.
     - destruct Hr as [Hlen Hc]. split; [lia|]. apply (mul_le_both _ _ _ _ _ Hc); lia.
@@ -446,14 +446,14 @@ Section SigCopyOk.
   (* UPPER BOUND, every input, every fuel, every outcome: what the reader copies is at most the
      nesting it reached times the bytes it consumed *)
   Theorem sig_copy_bound : forall fuel t bs,
-    copied (fst (sig_copy parse c fuel t bs)) <= nest (fst (sig_copy parse c fuel t bs)) * used bs (snd (sig_copy parse c fuel t bs)).
+    copied (fst (sig_copy parse c fuel t bs)) <= nesting (fst (sig_copy parse c fuel t bs)) * used bs (snd (sig_copy parse c fuel t bs)).
   Proof. intros fuel t bs. apply mok_used. apply sig_copy_ok. Qed.
 
   Lemma used_le : forall {A} bs (r : Wire.res (A * bytes)), used bs r <= blen bs.
   Proof. intros A bs [[a rest]|l| |]; cbn [used]; lia. Qed.
 
   Corollary sig_copy_bound_len : forall fuel t bs,
-    copied (fst (sig_copy parse c fuel t bs)) <= nest (fst (sig_copy parse c fuel t bs)) * blen bs.
+    copied (fst (sig_copy parse c fuel t bs)) <= nesting (fst (sig_copy parse c fuel t bs)) * blen bs.
   Proof. intros fuel t bs. apply (mul_le_r _ _ _ _ (sig_copy_bound fuel t bs)). apply used_le. Qed.
 End SigCopyOk.
 
@@ -461,58 +461,58 @@ End SigCopyOk.
 Section NestLoops.
   Variable p : bytes -> mres bytes.
   Variable D : N.
-  Hypothesis Hp : forall b, nest (fst (p b)) <= D.
+  Hypothesis Hp : forall b, nesting (fst (p b)) <= D.
 
-  Lemma mrep_nat_nest : forall k bs, nest (fst (mrep_nat p k bs)) <= D.
+  Lemma mrep_nat_nest : forall k bs, nesting (fst (mrep_nat p k bs)) <= D.
   Proof.
     induction k as [|k IH]; intro bs; cbn [mrep_nat]; [cbn; lia|].
     pose proof (Hp bs) as Hx. destruct (p bs) as [m [[x rest]|l| |]]; cbn [fst] in Hx |- *; try exact Hx.
-    pose proof (IH rest) as Hr. destruct (mrep_nat p k rest) as [m' r']. cbn [fst madd charge nest] in Hr |- *. lia.
+    pose proof (IH rest) as Hr. destruct (mrep_nat p k rest) as [m' r']. cbn [fst madd charge nesting] in Hr |- *. lia.
   Qed.
 
-  Lemma mrep_slow_nest : forall fuel n bs acc ma, nest ma <= D -> nest (fst (mrep_slow p fuel n bs acc ma)) <= D.
+  Lemma mrep_slow_nest : forall fuel n bs acc ma, nesting ma <= D -> nesting (fst (mrep_slow p fuel n bs acc ma)) <= D.
   Proof.
     induction fuel as [|f IH]; intros n bs acc ma Hma; cbn [mrep_slow].
     - destruct (n =? 0); exact Hma.
     - destruct (n =? 0); [exact Hma|].
-      pose proof (Hp bs) as Hx. destruct (p bs) as [m [[d bs']|l| |]]; cbn [fst madd nest] in Hx |- *; try lia.
+      pose proof (Hp bs) as Hx. destruct (p bs) as [m [[d bs']|l| |]]; cbn [fst madd nesting] in Hx |- *; try lia.
       destruct (Nat.ltb (List.length bs') (List.length bs)).
-      + apply IH. cbn [madd charge nest]. lia.
-      + cbn [fst nest]. lia.
+      + apply IH. cbn [madd charge nesting]. lia.
+      + cbn [fst nesting]. lia.
   Qed.
 
-  Lemma mrep_nest : forall n bs, nest (fst (mrep p n bs)) <= D.
+  Lemma mrep_nest : forall n bs, nesting (fst (mrep p n bs)) <= D.
   Proof.
     intros n bs. unfold mrep. destruct (N.of_nat (List.length bs) <? n).
     - apply mrep_slow_nest. cbn. lia.
     - apply mrep_nat_nest.
   Qed.
 
-  Lemma mvar_nest : forall bs, nest (fst (mvar p bs)) <= 1 + D.
+  Lemma mvar_nest : forall bs, nesting (fst (mvar p bs)) <= 1 + D.
   Proof.
-    intro bs. unfold mvar. destruct (read_num 4 bs) as [[n r]|l| |]; try (cbn [fst nest]; lia).
-    pose proof (mrep_nest n r) as Hr. destruct (mrep p n r) as [m x]. cbn [fst deeper charge nest] in Hr |- *. lia.
+    intro bs. unfold mvar. destruct (read_num 4 bs) as [[n r]|l| |]; try (cbn [fst nesting]; lia).
+    pose proof (mrep_nest n r) as Hr. destruct (mrep p n r) as [m x]. cbn [fst deeper charge nesting] in Hr |- *. lia.
   Qed.
 End NestLoops.
 
-Lemma mseq_with_nest : forall D ps, Forall (fun p : bytes -> mres bytes => forall b, nest (fst (p b)) <= D) ps ->
-  forall bs, nest (fst (mseq_with ps bs)) <= D.
+Lemma mseq_with_nest : forall D ps, Forall (fun p : bytes -> mres bytes => forall b, nesting (fst (p b)) <= D) ps ->
+  forall bs, nesting (fst (mseq_with ps bs)) <= D.
 Proof.
   intros D ps HF. induction HF as [|p ps' Hp HF' IH]; intro bs; cbn [mseq_with]; [cbn; lia|].
   pose proof (Hp bs) as Hx. destruct (p bs) as [m [[x rest]|l| |]]; cbn [fst] in Hx |- *; try exact Hx.
-  pose proof (IH rest) as Hr. destruct (mseq_with ps' rest) as [m' r']. cbn [fst madd charge nest] in Hr |- *. lia.
+  pose proof (IH rest) as Hr. destruct (mseq_with ps' rest) as [m' r']. cbn [fst madd charge nesting] in Hr |- *. lia.
 Qed.
 
 Lemma mentry_nest : forall Dk Dv (pk pv : bytes -> mres bytes),
-  (forall b, nest (fst (pk b)) <= Dk) -> (forall b, nest (fst (pv b)) <= Dv) ->
-  forall b, nest (fst (mentry pk pv b)) <= 1 + N.max Dk Dv.
+  (forall b, nesting (fst (pk b)) <= Dk) -> (forall b, nesting (fst (pv b)) <= Dv) ->
+  forall b, nesting (fst (mentry pk pv b)) <= 1 + N.max Dk Dv.
 Proof.
   intros Dk Dv pk pv Hk Hv b. unfold mentry.
-  pose proof (Hk b) as Hx. destruct (pk b) as [mk [[k r1]|l| |]]; cbn [fst deeper nest] in Hx |- *; try lia.
-  pose proof (Hv r1) as Hy. destruct (pv r1) as [mv [[v r2]|l| |]]; cbn [fst deeper madd charge nest] in Hy |- *; lia.
+  pose proof (Hk b) as Hx. destruct (pk b) as [mk [[k r1]|l| |]]; cbn [fst deeper nesting] in Hx |- *; try lia.
+  pose proof (Hv r1) as Hy. destruct (pv r1) as [mv [[v r2]|l| |]]; cbn [fst deeper madd charge nesting] in Hy |- *; lia.
 Qed.
 
-Lemma mleaf_nest : forall r, nest (fst (mleaf r)) = 1.
+Lemma mleaf_nest : forall r, nesting (fst (mleaf r)) = 1.
 Proof. intros [[d rest]|l| |]; reflexivity. Qed.
 
 Lemma fold_max_in : forall {X} (g : X -> N) (l : list X) x, In x l -> g x <= fold_right (fun y a => N.max (g y) a) 0 l.
@@ -525,11 +525,11 @@ Section BodyNest.
   Variable c : wcfg.
   Variable dyn obj : bytes -> mres bytes.
   Variables Dd Do : N.
-  Hypothesis Hobj : forall b, nest (fst (obj b)) <= Do.
+  Hypothesis Hobj : forall b, nesting (fst (obj b)) <= Do.
 
   Lemma sig_copy_body_nest : forall t,
-    plain_m t = true \/ (forall b, nest (fst (dyn b)) <= Dd) ->
-    forall bs, nest (fst (sig_copy_body c dyn obj t bs)) <= rdepth_g Dd Do t.
+    plain_m t = true \/ (forall b, nesting (fst (dyn b)) <= Dd) ->
+    forall bs, nesting (fst (sig_copy_body c dyn obj t bs)) <= rdepth_g Dd Do t.
   Proof.
     induction t as [s|t' IH|tk tv IHk IHv|ts IH|name fs IH] using ty_ind2; intros Hd bs.
     - destruct s; cbn [sig_copy_body rdepth_g]; try (rewrite mleaf_nest; lia).
@@ -541,17 +541,17 @@ Section BodyNest.
       apply mvar_nest. apply mentry_nest.
       + apply IHk. destruct Hd as [Hd|Hd]; [left|right; exact Hd]. cbn [plain_m] in Hd. apply andb_true_iff in Hd. tauto.
       + apply IHv. destruct Hd as [Hd|Hd]; [left|right; exact Hd]. cbn [plain_m] in Hd. apply andb_true_iff in Hd. tauto.
-    - cbn [sig_copy_body rdepth_g]. unfold mcat. cbn [fst deeper nest].
+    - cbn [sig_copy_body rdepth_g]. unfold mcat. cbn [fst deeper nesting].
       set (D := fold_right (fun t a => N.max (rdepth_g Dd Do t) a) 0 ts).
-      enough (H : nest (fst (mseq_with (map (sig_copy_body c dyn obj) ts) bs)) <= D) by lia.
+      enough (H : nesting (fst (mseq_with (map (sig_copy_body c dyn obj) ts) bs)) <= D) by lia.
       apply mseq_with_nest. apply Forall_forall. intros q Hq. apply in_map_iff in Hq as (t & <- & Hin).
       intro b. rewrite Forall_forall in IH. apply (N.le_trans _ (rdepth_g Dd Do t)).
       + apply IH; [exact Hin|]. destruct Hd as [Hd|Hd]; [left|right; exact Hd].
         cbn [plain_m] in Hd. rewrite forallb_forall in Hd. apply Hd. exact Hin.
       + apply (fold_max_in (rdepth_g Dd Do) ts t Hin).
-    - cbn [sig_copy_body rdepth_g]. unfold mcat. cbn [fst deeper nest].
+    - cbn [sig_copy_body rdepth_g]. unfold mcat. cbn [fst deeper nesting].
       set (D := fold_right (fun f a => N.max (rdepth_g Dd Do (snd f)) a) 0 fs).
-      enough (H : nest (fst (mseq_with (map (fun f => sig_copy_body c dyn obj (snd f)) fs) bs)) <= D) by lia.
+      enough (H : nesting (fst (mseq_with (map (fun f => sig_copy_body c dyn obj (snd f)) fs) bs)) <= D) by lia.
       apply mseq_with_nest. apply Forall_forall. intros q Hq. apply in_map_iff in Hq as (f & <- & Hin).
       intro b. rewrite Forall_forall in IH. apply (N.le_trans _ (rdepth_g Dd Do (snd f))).
       + apply IH; [exact Hin|]. destruct Hd as [Hd|Hd]; [left|right; exact Hd].
@@ -560,7 +560,7 @@ Section BodyNest.
   Qed.
 End BodyNest.
 
-Lemma sig_copy_obj_nest : forall c b, nest (fst (sig_copy_obj c b)) <= rdepth_obj.
+Lemma sig_copy_obj_nest : forall c b, nesting (fst (sig_copy_obj c b)) <= rdepth_obj.
 Proof.
   intros c b. unfold sig_copy_obj, rdepth_obj. apply sig_copy_body_nest.
   - intro b'. cbn. lia.
@@ -569,7 +569,7 @@ Qed.
 
 (* a type that holds no dynamic value: the nesting is the type's, whatever the input *)
 Theorem sig_copy_nest_static : forall parse c fuel t bs, plain_m t = true ->
-  nest (fst (sig_copy parse c fuel t bs)) <= rdepth t.
+  nesting (fst (sig_copy parse c fuel t bs)) <= rdepth t.
 Proof.
   intros parse c fuel t bs Ht. unfold rdepth.
   destruct fuel as [|f]; cbn [sig_copy]; apply sig_copy_body_nest; try apply sig_copy_obj_nest; left; exact Ht.
@@ -619,7 +619,7 @@ Proof. reflexivity. Qed.
 Lemma nested_m_copy : forall c, value_reader_no_len c = false ->
   forall n fuel rest, (n < fuel)%nat ->
   sig_copy parse_opt c fuel (TS SValue) (nested_m n ++ rest) =
-  ({| copied := copy_m n; nest := N.of_nat n + 2 |}, ROk (nested_m n, rest)).
+  ({| copied := copy_m n; nesting := N.of_nat n + 2 |}, ROk (nested_m n, rest)).
 Proof.
   intros c Hnl. induction n as [|n IH]; intros fuel rest Hf; (destruct fuel as [|f]; [lia|]).
   - rewrite sig_copy_value_S. unfold mvalue. cbn [nested_m]. rewrite read_str_v.
@@ -627,7 +627,7 @@ Proof.
     destruct f as [|f']; reflexivity.
   - rewrite sig_copy_value_S. unfold mvalue. cbn [nested_m]. rewrite <- app_assoc, read_str_m.
     change (string_of_bytes [x6d]) with "m"%string. rewrite parse_opt_m, Hnl.
-    rewrite (IH f rest) by lia. cbv beta iota zeta. unfold deeper, charge. cbn [copied nest].
+    rewrite (IH f rest) by lia. cbv beta iota zeta. unfold deeper, charge. cbn [copied nesting].
     change (enc_str [x6d]) with str_m. rewrite blen_app, nested_m_blen. change (blen str_m) with 5.
     f_equal. f_equal.
     + cbn [copy_m]. lia.
@@ -643,7 +643,7 @@ Proof.
   assert (Hf : (n < S (List.length (nested_m n)))%nat).
   { pose proof (nested_m_blen n) as H. unfold blen in H. lia. }
   pose proof (nested_m_copy wclean eq_refl n (S (List.length (nested_m n))) [] Hf) as H.
-  rewrite app_nil_r in H. rewrite H. cbn [fst snd copied nest]. repeat split.
+  rewrite app_nil_r in H. rewrite H. cbn [fst snd copied nesting]. repeat split.
 Qed.
 
 (* NO LINEAR BOUND: for every k there is an input the reader accepts (and returns whole) on which it
